@@ -123,6 +123,8 @@ def ddt(S, table):
     out = {}
     for mono, coef in S.items():
         for i, b in enumerate(mono):
+            if b[0] == "sym":
+                continue
             rest = mono[:i] + mono[i + 1:]
             atoms = b[1:]
             for j, a in enumerate(atoms):
@@ -148,10 +150,11 @@ class Bracketer:
     """AST -> normal form.  Values: ("s", scalar nf) | ("v", vector nf) | None (not readable).  Locals with a single binding are inlined;
     `atom(expr) -> name | None` names the atomic vectors (e.g. `self.v_J1(t, q, u)` -> v_J1, `A_IJ1[:, ax]` -> A_IJ1[ax])."""
 
-    def __init__(self, fn, atom):
+    def __init__(self, fn, atom, rot=None):
         import ast
         self.ast = ast
         self.atom = atom
+        self.rot = rot          # predicate: expression is a rotation that both sides carry as a common left factor (treated as identity)
         self.local = {}
         for n in ast.walk(fn):
             if isinstance(n, ast.Assign) and len(n.targets) == 1:
@@ -163,6 +166,66 @@ class Bracketer:
                         if isinstance(a, ast.Name):
                             self.local.setdefault(a.id, []).append(b)
 
+    def apply(self, e, X, depth=0):
+        """(matrix expression e) applied to the vector normal form X; None if e is not built from skew / outer / identity / rotation
+        factors, sums, products and scalar multiples"""
+        ast = self.ast
+        if depth > 14 or X is None:
+            return None
+        if self.rot is not None and self.rot(e):
+            return X
+        if isinstance(e, ast.Name):
+            if e.id in ("eye3",):
+                return X
+            vs = self.local.get(e.id)
+            if vs and len(vs) == 1:
+                return self.apply(vs[0], X, depth + 1)
+            return None
+        if isinstance(e, ast.UnaryOp) and isinstance(e.op, (ast.USub, ast.UAdd)):
+            r = self.apply(e.operand, X, depth + 1)
+            return r if r is None or isinstance(e.op, ast.UAdd) else vscale(r, -1)
+        if isinstance(e, ast.BinOp):
+            if isinstance(e.op, (ast.Add, ast.Sub)):
+                a, b = self.apply(e.left, X, depth + 1), self.apply(e.right, X, depth + 1)
+                if a is None or b is None:
+                    return None
+                return vadd(a, b, -1 if isinstance(e.op, ast.Sub) else 1)
+            if isinstance(e.op, ast.MatMult):
+                inner = self.apply(e.right, X, depth + 1)
+                return None if inner is None else self.apply(e.left, inner, depth + 1)
+            if isinstance(e.op, (ast.Mult, ast.Div)):
+                for m_, s_ in ((e.right, e.left), (e.left, e.right)):
+                    if isinstance(e.op, ast.Div) and m_ is e.right:
+                        continue
+                    sv = self.ev(s_, depth + 1)
+                    if sv is not None and sv[0] == "s":
+                        if isinstance(e.op, ast.Div):
+                            if set(sv[1]) != {()}:
+                                return None
+                            sv = ("s", {(): 1 / sv[1][()]})
+                        r = self.apply(m_, X, depth + 1)
+                        return None if r is None else vsmul(r, sv[1])
+                return None
+            return None
+        if isinstance(e, ast.Call):
+            f = e.func
+            name = f.id if isinstance(f, ast.Name) else (f.attr if isinstance(f, ast.Attribute) else "")
+            if name == "ax2skew" and len(e.args) == 1:
+                a = self.ev(e.args[0], depth + 1)
+                return None if a is None or a[0] != "v" else vcross(a[1], X)
+            if name == "ax2skew_squared" and len(e.args) == 1:
+                a = self.ev(e.args[0], depth + 1)
+                return None if a is None or a[0] != "v" else vcross(a[1], vcross(a[1], X))
+            if name == "outer" and len(e.args) == 2:
+                a, b = self.ev(e.args[0], depth + 1), self.ev(e.args[1], depth + 1)
+                if a is None or b is None or a[0] != "v" or b[0] != "v":
+                    return None
+                return vsmul(a[1], sdot(b[1], X))
+            if name in ("eye", "identity") and e.args and isinstance(e.args[0], ast.Constant) and e.args[0].value == 3:
+                return X
+            return None
+        return None
+
     def ev(self, e, depth=0):
         ast = self.ast
         if depth > 14:
@@ -172,6 +235,8 @@ class Bracketer:
             return ("s", {(): c} if c else {})
         a = self.atom(e)
         if a is not None:
+            if isinstance(a, tuple) and a[0] == "sym":          # constant scalar datum (self.dist, a radius, ...)
+                return ("s", {(("sym", a[1]),): Fraction(1)})
             return ("v", vatom(a))
         if isinstance(e, ast.Name):
             vs = self.local.get(e.id)
@@ -183,6 +248,8 @@ class Bracketer:
             if r is None or isinstance(e.op, ast.UAdd):
                 return r
             return ("s", sadd({}, r[1], -1)) if r[0] == "s" else (r[0], vscale(r[1], -1))
+        if isinstance(e, ast.BinOp) and isinstance(e.op, ast.MatMult) and self.rot is not None and self.rot(e.left):
+            return self.ev(e.right, depth + 1)
         if isinstance(e, ast.BinOp):
             L, R = self.ev(e.left, depth + 1), self.ev(e.right, depth + 1)
             if L is None or R is None:
@@ -209,6 +276,11 @@ class Bracketer:
                 if k == ("v", "m") and isinstance(e.op, ast.MatMult):
                     return ("v", vcross(L[1], R[1]))       # a^T skew(b) = (a x b)^T
                 return None
+            if isinstance(e.op, ast.Pow) and L[0] == "s" and R[0] == "s" and set(R[1]) == {()} and R[1][()].denominator == 1 and 0 <= R[1][()] <= 4:
+                out = {(): Fraction(1)}
+                for _ in range(int(R[1][()])):
+                    out = smul(out, L[1])
+                return ("s", out)
             if isinstance(e.op, ast.Div) and R[0] == "s" and set(R[1]) == {()}:
                 inv = {(): 1 / R[1][()]}
                 return ("s", smul(L[1], inv)) if L[0] == "s" else (L[0], vsmul(L[1], inv))
@@ -246,7 +318,11 @@ def vsmul(U, S):
 
 
 def atoms_of(S):
-    return sorted({a for mono in S for b in mono for a in b[1:]})
+    return sorted({a for mono in S for b in mono if b[0] != "sym" for a in b[1:]})
+
+
+def syms_of(S):
+    return sorted({b[1] for mono in S for b in mono if b[0] == "sym"})
 
 
 def evaluate(S, point):
@@ -261,6 +337,9 @@ def evaluate(S, point):
     for mono, coef in S.items():
         v = coef
         for b in mono:
+            if b[0] == "sym":
+                v *= point[("sym", b[1])]
+                continue
             vs = [point[a] for a in b[1:]]
             v *= dot(*vs) if b[0] == "dot" else det(*vs)
         tot += v
@@ -283,6 +362,9 @@ def same_function(A, B, trials=6):
                 seed = (seed * 1103515245 + 12345) % (2 ** 31)
                 vec.append(seed % 19 - 9)
             pt[n] = tuple(vec)
+        for n in syms_of(D):
+            seed = (seed * 1103515245 + 12345) % (2 ** 31)
+            pt[("sym", n)] = seed % 7 + 2
         if evaluate(D, pt) != 0:
             return False, pt
     return True, None
@@ -290,5 +372,10 @@ def same_function(A, B, trials=6):
 
 def show(S):
     def b(x):
+        if x[0] == "sym":
+            return x[1]
         return ("(" + ".".join(x[1:]) + ")") if x[0] == "dot" else ("[" + ",".join(x[1:]) + "]")
-    return " ".join(f"{v:+}*{''.join(b(x) for x in k)}" for k, v in sorted(S.items())) or "0"
+    def c(v):
+        v = Fraction(v)
+        return ("+" if v > 0 else "-") + (str(abs(v.numerator)) if v.denominator == 1 else f"{abs(v.numerator)}/{v.denominator}")
+    return " ".join(f"{c(v)}*{''.join(b(x) for x in k)}" for k, v in sorted(S.items())) or "0"
